@@ -3,7 +3,7 @@
 tier="${1:-quick}"; shift
 ids="$@"; [ -z "$ids" ] && ids="C01 C02 C03 C04 C05 C06 C07 C08 C09 C10 C11 C12 C13 C14 C15 C16 C17 C18 C19 C20"
 for p in $ids; do
-  out=$(/verif/bin/check $p --tier $tier 2>&1); rc=$?
+  out=$("$(dirname "$0")/../bin/check" $p --tier $tier 2>&1); rc=$?
   echo "$p rc=$rc $(echo "$out" | grep -c '^VIOLATION') viol, $(echo "$out" | grep -c '^KNOWN-FINDING') known | $(echo "$out" | tail -1 | cut -c1-230)"
   echo "$out" | grep -E '^VIOLATION|HARNESS' | head -3
 done
